@@ -331,6 +331,57 @@ example : 2 ≤ (bearers demo.log 2).length ∧
     (∃ s', stmt {} demo (.fieldSet (.name 2) 7) = .ok s' ∧ s'.fld 1 = 0 ∧ s'.fld 3 = 0 ∧ visits (s'.log.drop demo.log.length) = []) :=
   ⟨by decide, _, rfl, by decide, by decide, by decide⟩
 
+/-! ## setter-backed fields (`$name.target = v`, `$name.targetname = n`) -/
+
+/-- **A setter-backed field assignment applied to `$name` reaches every member of the snapshot exactly
+    once** (with the repair `cfg.fieldFan`, i.e. the tree since the group path of `OP_LOAD_FIELD_VAR`
+    exists): the setter event is processed on all bearers of `n` as of the start of the statement, each
+    exactly once, in naming order — also for `targetname`, whose setter takes every member OUT of the
+    group `n` while the loop runs (the loop walks the copy, not the table's list). -/
+theorem C15_setter_fanout_once {cfg : Cfg} (hfix : cfg.fieldFan = true) {s s' : State} (h : Reachable cfg s)
+    {n : Name} {f : Setter} (hok : stmt cfg s (.fieldSetter (.name n) f) = .ok s') :
+    ∃ seg, s'.log = s.log ++ seg ∧ visits seg = bearers s.log n := by
+  have hst : stmt cfg s (.fieldSetter (.name n) f) = fieldSetter cfg (note cfg s (some (.name n))) (.name n) f := rfl
+  rw [hst] at hok
+  have key := fieldSetter_visits_core hfix (note_good cfg h.good _) hok
+  rw [(note_fields cfg s _).1] at key
+  exact key
+
+/-- **… with the SAME value.**  `$name.target = x`: afterwards exactly the bearers of `n` have target
+    `x` — the first member and every later one alike (`executeSetter` copies the stack top into the
+    event, `loadStoreTop` leaves it in place for the next member) — and nobody else's target changed. -/
+theorem C15_setter_fanout_same_value {cfg : Cfg} (hfix : cfg.fieldFan = true) {s s' : State} (h : Reachable cfg s)
+    {n : Name} {x : Nat} (hok : stmt cfg s (.fieldSetter (.name n) (.target x)) = .ok s') :
+    ∀ o, s'.tgt o = if o ∈ bearers s.log n then x else s.tgt o := by
+  have hst : stmt cfg s (.fieldSetter (.name n) (.target x)) =
+      fieldSetter cfg (note cfg s (some (.name n))) (.name n) (.target x) := rfl
+  rw [hst] at hok
+  have key := fieldSetter_target_core hfix (note_good cfg h.good _) hok
+  rw [(note_fields cfg s _).1, note_tgt] at key
+  exact key
+
+/-- **`src.targetname = m` is the `targetname` command.**  With the repair the field path dispatches
+    exactly like `ExecCmdMethodCommon` (same error answers, same single-listener case, same loop over the
+    copy) and every member's setter receives the one name `m`: the statement has the same outcome as
+    `src targetname m`, for every source and every state.  Hence `C15_fanout_once`,
+    `C15_fanout_all_when_only_self_deleted` and `C15_rename_moves` (member by member) speak about it. -/
+theorem C15_setter_targetname_is_command {cfg : Cfg} (hfix : cfg.fieldFan = true) (s : State) (src : Src) (m : Name) :
+    stmt cfg s (.fieldSetter src (.name m)) = stmt cfg s (.fanName src m) := by
+  have h1 : stmt cfg s (.fieldSetter src (.name m)) = fieldSetter cfg (note cfg s (some src)) src (.name m) := rfl
+  have h2 : stmt cfg s (.fanName src m) =
+      fanOut cfg (note cfg s (some src)) src (fun st o => .ok (setTargetName st o m)) := rfl
+  rw [h1, h2, fieldSetter_eq_fanOut hfix]
+  rfl
+
+/-- non-vacuity: objects 1 and 3 bear n1, object 2 bears n2.  `$n1.target = "t7"` reaches 1 and 3 with 7;
+    `$n1.targetname = "n2"` moves both, in order, behind object 2 and empties n1 -/
+example : ∃ s', stmt { fieldFan := true } (demoOf { fieldFan := true }) (.fieldSetter (.name 2) (.target 7)) = .ok s' ∧
+    s'.tgt 1 = 7 ∧ s'.tgt 3 = 7 ∧ s'.tgt 2 = 0 ∧ visits (s'.log.drop (demoOf { fieldFan := true }).log.length) = [1, 3] :=
+  ⟨_, rfl, by decide, by decide, by decide, by decide⟩
+example : ∃ s', stmt { fieldFan := true } (demoOf { fieldFan := true }) (.fieldSetter (.name 2) (.name 3)) = .ok s' ∧
+    visits (s'.log.drop (demoOf { fieldFan := true }).log.length) = [1, 3] ∧ bearers s'.log 3 = [2, 1, 3] ∧ bearers s'.log 2 = [] :=
+  ⟨_, rfl, by decide, by decide, by decide⟩
+
 /-! ## captured values -/
 
 /-- **A captured `$name` value never refers to a deleted list — with the repair.**  When
